@@ -431,3 +431,17 @@ Example duplicates_kept :
   map f_txs (calls (send_bid (Some r) SenderFails None)) = [sample_hash ++ 44 :: sample_hash2 ++ 44 :: sample_hash] /\
   map f_amount (calls (send_bid (Some r) SenderFails None)) = [bos "0012"].
 Proof. split; [apply validate_spec; vm_compute; reflexivity | split; vm_compute; reflexivity]. Qed.
+
+(* Each streamed message is built from the commitment received at the same position: with two
+   commitments whose embedded bids differ, the second message carries the second bid's fields
+   (C19_commitment states this for every list by Forall2). *)
+Definition sample_pbid2 : pbid :=
+  {| pb_tx := sample_hash2; pb_amount := bos "77"; pb_bn := 70; pb_ds := 80; pb_de := 90;
+     pb_digest := x "aa"; pb_sig := x "bb" |}.
+Definition sample_preconf2 : preconf :=
+  {| pc_bid := Some sample_pbid2; pc_digest := x "cc"; pc_sig := x "dd"; pc_prov := x "ee" |}.
+Example second_commitment_own_bid :
+  streamed (send_bid (Some sample_request) (SenderReturns [Some sample_preconf; Some sample_preconf2]) None) =
+  [image sample_preconf sample_pbid; image sample_preconf2 sample_pbid2] /\
+  image sample_preconf2 sample_pbid2 <> image sample_preconf2 sample_pbid.
+Proof. split; [vm_compute; reflexivity | vm_compute; discriminate]. Qed.
